@@ -91,6 +91,12 @@ CHECKS = {
          "histories, set/dict lookup of an equal key succeeds, permutations are strictly totally ordered by (length, lex), every pair of mesh-type "
          "patterns is comparable, sorted() is correct. Exhaustive pairs/triples of a ~100-object pool; hash stability under allocation churn, gc and fresh interpreters.",
          "order laws of Basis/MeshBasis objects (inherited tuple comparison) are evaluated only.", "5/C08"),
+ "C14": ("Lean 4 theorems: pin-word decoding total and geometric on the generator's language, generator = language, tables mutually inverse and history independent, SP<->M round trips, quadrant lemma, gap test = non-touching condition + correspondence; containment iff as bounded test",
+         "Proved for all pin words of all lengths: pinword_to_perm succeeds exactly on the language and returns the permutation of the pin sequence it "
+         "describes (each numeral an independent pin beyond all earlier points in its quadrant, each direction a separating pin), error kinds outside; "
+         "pinwords_of_length lists the language without repetition; word->perm and perm->words tables are inverse and memo-history independent; "
+         "m_to_sp/sp_to_m are mutually inverse; the (fixed) pinword_contains equals Thm 3.13's non-touching search. Letter tables regenerated from the source.",
+         "the containment iff (Bassino-Bouvel-Pierrot-Rossin Thm 3.13) is a bounded test: all strict words <=5 / all words <=4 against all permutations <=4.", "5/C14"),
 }
 
 PENDING = {}
